@@ -358,6 +358,53 @@ def translate_make_mapping_each(src):
         "  else none\n")
 
 
+def translate_make_mapping_each_set(src):
+    """`make_mapping_each_set` of fci_graph.c (the k-fold annihilation maps between sectors): the body executed for one
+    annihilation mask (its occupied positions `occ`, ascending) and one source string, matched against the reviewed
+    shape; helper names, index expressions and the loop direction are read from the source"""
+    m = re.search(r"void\s+make_mapping_each_set\s*\(", src)
+    if not m:
+        raise SyntaxError("make_mapping_each_set not found")
+    i = src.index("{", m.end())
+    depth, j = 1, i + 1
+    while depth:
+        depth += {"{": 1, "}": -1}.get(src[j], 0)
+        j += 1
+    body = re.sub(r"\s+", " ", src[i:j])
+    pat = (r"const uint64_t source = istrings\[i\]; if \(\(\(source & mask\) \^ mask\) == 0\) \{ "
+           r"int parity = (?P<f1>\w+)\(source, occ\[dn - 1\]\) \* dn; "
+           r"uint64_t target = (?P<m1>\w+)\(source, occ\[dn - 1\]\); "
+           r"for \(int d = dn - 2; d >= 0; --d\) \{ "
+           r"parity \+= \(d \+ 1\) \* (?P<f2>\w+)\(source, occ\[d\], occ\[d ?\+ ?1\]\); "
+           r"target = (?P<m2>\w+)\(target, occ\[d\]\); \} "
+           r"down\[0 \+ 3 \* \(count \+ nsize \* c\)\] = source; down\[1 \+ 3 \* \(count \+ nsize \* c\)\] = target; "
+           r"down\[2 \+ 3 \* \(count \+ nsize \* c\)\] = parity; "
+           r"up\[0 \+ 3 \* \(count \+ nsize \* c\)\] = target; up\[1 \+ 3 \* \(count \+ nsize \* c\)\] = source; "
+           r"up\[2 \+ 3 \* \(count \+ nsize \* c\)\] = parity; \+\+count; \}")
+    mm = re.search(pat, body)
+    if not mm:
+        raise SyntaxError("make_mapping_each_set no longer has the reviewed shape")
+    if not re.search(r"const uint64_t mask = comb\[c\]; int occ\[16\]; assert\(count_bits\(mask\) == dn && dn < 16\); get_occupation\(occ, mask\);", body):
+        raise SyntaxError("make_mapping_each_set: occ is no longer the occupation list of the mask")
+    g = mm.groupdict()
+    mac = {"SET_BIT": "set_bit", "UNSET_BIT": "unset_bit"}
+    if g["m1"] not in mac or g["m2"] not in mac:
+        raise SyntaxError("unknown macro in make_mapping_each_set")
+    if g["f1"] != "count_bits_above" or g["f2"] != "count_bits_between":
+        raise SyntaxError("parity helpers of make_mapping_each_set changed")
+    return (
+        "/-- `fci_graph.c`, `make_mapping_each_set`: what one source string contributes for one annihilation mask with\n"
+        "    occupied positions `occ` (ascending, `dn` of them): `(target, parity count)`; `none` = not admitted -/\n"
+        "def mmes_entry (source mask : BitVec 64) (occ : List Nat) (dn : Nat) : Option (BitVec 64 × Nat) :=\n"
+        "  if ((source &&& mask) ^^^ mask) == 0#64 then\n"
+        f"    let parity := {g['f1']} source (occ.getD (dn - 1) 0) * dn\n"
+        f"    let target := {mac[g['m1']]} source (occ.getD (dn - 1) 0)\n"
+        "    let st := (List.range (dn - 1)).reverse.foldl (fun (st : BitVec 64 × Nat) d =>\n"
+        f"      ({mac[g['m2']]} st.1 (occ.getD d 0), st.2 + (d + 1) * {g['f2']} source (occ.getD d 0) (occ.getD (d + 1) 0))) (target, parity)\n"
+        "    some (st.1, st.2)\n"
+        "  else none\n")
+
+
 def main():
     h = open(os.path.join(REPO, "src/fqe/lib/bitstring.h")).read()
     c = open(os.path.join(REPO, "src/fqe/lib/bitstring.c")).read()
@@ -378,6 +425,7 @@ def main():
     parts.append(translate_gosper(c))
     parts.append(translate_build_mapping(open(os.path.join(REPO, "src/fqe/lib/fci_graph.c")).read()))
     parts.append(translate_make_mapping_each(open(os.path.join(REPO, "src/fqe/lib/fci_graph.c")).read()))
+    parts.append(translate_make_mapping_each_set(open(os.path.join(REPO, "src/fqe/lib/fci_graph.c")).read()))
     parts.append("end GenC\n")
     text = "\n".join(parts)
     old = open(OUT).read() if os.path.exists(OUT) else None
